@@ -11,11 +11,14 @@ the block.  LRU and FIFO are `(cap, items)` with `items` in list order `root.nex
 whose order carries no meaning; its evictions are *validated* against the victim the implementation
 chose (`hint` / `victims`) instead of predicted (Go map iteration order).
 
-One simplification is made and is tracked by the `Coherent` predicate of Hts.Lemmas.Cache: the
-implementation's `remove(n, table)` deletes `table[n.b.Base()]` (the block's *current* base), the model
-deletes the node's key.  They coincide as long as no block is overwritten while a cache still indexes it;
-C14 proves that this holds for LRU/Random/StatsRecorder under reader-style use and exhibits the FIFO
-history where it does not.
+`remove(n, table)` deletes the key the node was inserted under (`n.key`, fixes/C14-2-*.diff), which is
+exactly the model's `removeKey … e.key`; the model is therefore faithful for every history, including the
+ones in which a block is overwritten while a cache still indexes it (FIFO under reader-style use, any
+cache under the harness's `W` op).  On the tree without that repair `remove` deleted
+`table[n.b.Base()]` (the block's *current* base): after such an overwrite the eviction left the table
+entry behind and `Len() > Cap()` (audit H-2; the harness reports `len-gt-cap` there).  The `Coherent`
+predicate of Hts.Lemmas.CacheClient is still what separates the caches that answer `Get(k)` with a block
+of base `k` (LRU/Random/StatsRecorder under reader-style use) from FIFO, which does not.
 
 `drop` mirrors the repaired loop (`len(c.table) > 0`); on the unrepaired tree `drop` calls `c.Len()`
 under the write lock and never returns (fixes/C14-1-*.diff).
